@@ -1245,6 +1245,9 @@ pub fn client_config(cfg: &PairCfg, keylog: Arc<mtls::KeyLog>, dcid_seed: u8) ->
         let mut b = [0xd0u8; 8];
         b[0] = dcid_seed;
         b[1] = n as u8;
+        // (more than 256 connections from one configuration: the counter carries on in the next byte,
+        // which stays 0xd0 for the first 256 so that earlier traces are unchanged)
+        b[2] = 0xd0u8.wrapping_add((n >> 8) as u8);
         ConnectionId::new(&b)
     }));
     cc
